@@ -7,6 +7,7 @@ package auth
 import (
 	"context"
 	"encoding/base64"
+	"mime"
 	"net/http"
 	"net/url"
 	"strings"
@@ -104,7 +105,7 @@ func (a *Credentials) loadTokenFromCookie(r *http.Request) {
 // always desirable to read the request body. This has to be requested
 // explicitly by the application.
 func (a *Credentials) LoadTokensFromHTTPRequestBody(r *http.Request) error {
-	if r.Header.Get("Content-Type") != "application/x-www-form-urlencoded" {
+	if ct, _, err := mime.ParseMediaType(r.Header.Get("Content-Type")); err != nil || ct != "application/x-www-form-urlencoded" {
 		return nil
 	}
 	if err := r.ParseForm(); err != nil {
